@@ -686,6 +686,14 @@ func mainT() {
 		fexs[m] = fneed[m]
 	}
 	run.Set("faulty_concurrent_orders_by_marker", fexs)
+
+	// part 4 (E3): histories with re-pushed tags on one long-lived store +
+	// manager + executor (own time budget)
+	rbudget := 60
+	if thorough {
+		rbudget = 5 * 60
+	}
+	repushPart(run, thorough, rbudget)
 	if run.NViolations() == 0 {
 		for _, m := range markers {
 			if need[m] == 0 {
